@@ -196,27 +196,42 @@ impl<F: FixedChannelRegion> RegionHandler for FixedChannelPlan<F> {
                 (dr, channel)
             }
             Frame::Data => {
+                let bandwidth = F::datarates()[datarate as usize].as_ref().unwrap().bandwidth;
                 // The join bias gets reset after receiving CFList in Join Frame
                 // or ChannelMask in the LinkADRReq in Data Frame.
                 // If it has not been reset yet, we continue to use the bias for the data frames.
                 // We hope to acquire ChannelMask via LinkADRReq.
-                if self.join_channels.has_bias_and_not_exhausted() {
+                let biased = if self.join_channels.has_bias_and_not_exhausted() {
                     let channel = self.join_channels.get_next_channel(rng);
                     let dr = if channel < 64 {
                         DR::_0
                     } else {
                         F::JOIN_DR_500KHZ
                     };
-                    (dr, channel)
+                    Some((dr, channel))
                 // Alternatively, we will ask JoinChannel logic to determine a channel from the
                 // subband that  the join succeeded on.
-                } else if let Some(channel) = self.join_channels.first_data_channel(rng) {
-                    (datarate, channel)
+                } else {
+                    self.join_channels.first_data_channel(rng).map(|channel| {
+                        if bandwidth == Bandwidth::_500KHz {
+                            // the 500 kHz channel of that subband carries the 500 kHz data rates
+                            (datarate, 64 + channel / 8)
+                        } else {
+                            (datarate, channel)
+                        }
+                    })
+                };
+                // The bias only knows about subbands: a channel which the channel mask (kept
+                // from an earlier session, for instance) disables must not be used.
+                let biased = biased.filter(|(_, channel)| {
+                    self.channel_mask.is_enabled((*channel).into()).unwrap()
+                });
+                if let Some(biased) = biased {
+                    biased
                 } else {
                     // For the data frame, the datarate impacts which channel sets we can choose
                     // from. If the datarate bandwidth is 500 kHz, we must use
                     // channels 64..=71. Else, we must use 0-63
-                    let bandwidth = F::datarates()[datarate as usize].as_ref().unwrap().bandwidth;
                     if bandwidth == Bandwidth::_500KHz {
                         let mut channel = (rng.next_u32() & 0b111) as u8;
                         // keep selecting a random channel until we find one that is enabled
